@@ -89,6 +89,7 @@ def one_case(ctx, case: dict):
                 ctx.clause_fail('merge_succeeds', {**case, 'impl_result': res}, detail=f'valid merge failed: {res}')
                 return
             got = read_all(d / out_name, tags, cache_mb=case['cache_mb'])
+            trace_locate(ctx, d / out_name, len(concat))
             if got != concat:
                 ctx.clause_fail('merged_get_eq_concat', {**case, 'impl': got, 'expected': concat},
                                 detail='trajectories of the merged store differ from the concatenation of the inputs')
@@ -242,6 +243,81 @@ def species_case(ctx, d, case):
     m = ctx.driver.outs([{'op': 'merge.decoded', 'files': mfiles, 'gets': list(range(len(want)))}])[0]
     if [[(a, b) for a, b in r] for r in m] != want:
         ctx.diverge('merged species decode: model vs implementation', {**case, 'model': m, 'impl': got})
+
+
+def trace_locate(ctx, path, n):
+    """Validates what `harness/common/locprog.py` read from `_load_trajectory` (which bisect, needle and local offsets, the guard)
+    against the running code: for every index of a real merged store (and two past the end) the frame of `_load_trajectory` is
+    observed at its return and the file / local index it computed are compared with the arithmetic of the extracted parameters
+    evaluated on the size index the store holds."""
+    import bisect
+    import sys
+
+    from harness.common import locprog
+
+    sm = ctx.extra.setdefault('locate_trace', {'lookups': 0, 'mismatches': 0})
+    if sm['lookups'] >= ctx.scale(quick=400, thorough=6000):
+        return
+    try:
+        P = locprog.translate()[1]
+    except Exception:  # noqa: BLE001  (reported once by ctx.proofs())
+        return
+    from AEIC.trajectories import TrajectoryStore
+
+    code = getattr(TrajectoryStore._load_trajectory, '__wrapped__', TrajectoryStore._load_trajectory).__code__
+    ivar, fvar, gvar = P['vars']
+    obs = []
+
+    def local(frame, event, arg):
+        if event == 'return':
+            loc = frame.f_locals
+            nf = loc.get('nc_files')
+            obs.append((loc.get(ivar), loc.get(fvar), loc.get(gvar), list(getattr(nf, 'size_index', None) or [])))
+        return local
+
+    def tracer(frame, event, arg):
+        return local if (event == 'call' and frame.f_code is code) else None
+
+    try:
+        ts = TrajectoryStore.open(base_file=path, cache_size_mb=0)
+    except Exception:  # noqa: BLE001
+        return
+    try:
+        old = sys.gettrace()
+        sys.settrace(tracer)
+        try:
+            for i in list(range(n)) + [n, n + 1]:
+                try:
+                    ts[i]
+                except Exception:  # noqa: BLE001
+                    pass
+        finally:
+            sys.settrace(old)
+    finally:
+        try:
+            ts.close()
+        except Exception:  # noqa: BLE001
+            pass
+        gc.collect()
+    for idx, f, g, size_index in obs:
+        if idx is None or not size_index:
+            continue
+        sm['lookups'] += 1
+        ctx.evaluations += 1
+        bis = bisect.bisect_left if P['left'] else bisect.bisect_right
+        wf = bis(size_index, idx + P['needle'])
+        if wf >= len(size_index):
+            want = (wf, None)
+            have = (f, None)            # (the local index of an earlier field set may linger; only the file index is compared)
+        else:
+            want = (wf, idx + P['local'] - size_index[wf + P['shift']])
+            have = (f, g)
+        if want != have:
+            sm['mismatches'] += 1
+            if sm['mismatches'] <= 3:
+                ctx.diverge('merged lookup parameters read from the source vs TrajectoryStore._load_trajectory',
+                            {'index': idx, 'size_index': size_index, 'parameters': {k: P[k] for k in ('left', 'needle', 'local', 'shift', 'guard')}},
+                            f'the running code computed (file, local index) = {have}, the extracted arithmetic gives {want}')
 
 
 def gen_case(rng):
